@@ -104,6 +104,11 @@ def parseCfg (w : List String) : Option Cfg :=
       | none => none
   | _ => none
 
+/-- `false`: the code as it is (known finding F-C10-3: registrations and task ids outlive their readers).
+hooks/fix-c10-3.check.sh flips this to `true` in a scratch copy to check the proposed repair
+hooks/fix-c10-3.patch against the model of the repaired code (`stepF true`). -/
+def repaired3 : Bool := false
+
 def stepOp (s : State) (w : List String) : Option State :=
   -- a `OnceResource` has no sources to write, no `refetch`, no `Write` impl and no `by_ref`
   if s.once && (w.head? == some "set" || w.head? == some "refetch" || w.head? == some "mset" ||
@@ -125,7 +130,7 @@ def stepOp (s : State) (w : List String) : Option State :=
     if k == "v" || k == "r" || k == "b" then some (step s .attach)
     else if k == "s" then some (step s .attachS)
     else none
-  | ["bdrop"] => some (step s .bdrop)
+  | ["bdrop"] => some (stepF repaired3 s .bdrop)
   | ["poll", j] => j.toNat?.map fun j => step s (.poll j)
   | ["idle"] => some (runIdle (4 * s.aws.length + 16) s)
   | ["get"] => some (step s .get)
